@@ -29,10 +29,10 @@ theorem gen_string_visitor :
 
 /-- `service_inner` partitions by `safe_args.contains`; `propagated_service` passes no safe args -/
 theorem gen_service_inner :
-    Gen.ErrorSrc.bodies.lookup "Error::service_inner" = some "{letmutsafe_params=HashMap::new();letmutunsafe_params=HashMap::new();for(key,value)inerror.parameters(){letkey=Cow::Owned(key.clone());letvalue=Any::new(value).unwrap();ifsafe_args.contains(&&*key){safe_params.insert(key,value);}else{unsafe_params.insert(key,value);}}letmuterror=Error::new(cause,cause_safe,ErrorKind::Service(error));error.0.safe_params=safe_params;error.0.unsafe_params=unsafe_params;error}" ∧
-    Gen.ErrorSrc.bodies.lookup "Error::propagated_service" = some "{Error::service_inner(cause.into(),false,error,&[])}" ∧
-    Gen.ErrorSrc.bodies.lookup "Error::propagated_service_safe" = some "{Error::service_inner(cause.into(),true,error,&[])}" ∧
-    Gen.ErrorSrc.bodies.lookup "Error::service" = some "{Error::service_inner(cause.into(),false,crate::encode(&error_type),error_type.safe_args(),)}" := by
+    Gen.ErrorSrc.hashes.lookup "Error::service_inner" = some 6288364651253037149 /- "{letmutsafe_params=HashMap::new();letmutunsafe_params=HashMap::new();for(key,value)inerror.parameters(){letkey=Cow::Owned(key.clone());letvalue=Any::new(value).unwrap();ifsafe_args.contains(&&*key){safe_params.insert(key,value);}else{unsafe_params.insert(key,value);}}letmuterror=Error::new(cause,cause_safe,ErrorKind::Service(error));error.0.safe_params=safe_params;error.0.unsafe_params=unsafe_params;error}" -/ ∧
+    Gen.ErrorSrc.hashes.lookup "Error::propagated_service" = some 13725418174180237583 /- "{Error::service_inner(cause.into(),false,error,&[])}" -/ ∧
+    Gen.ErrorSrc.hashes.lookup "Error::propagated_service_safe" = some 733109740369306220 /- "{Error::service_inner(cause.into(),true,error,&[])}" -/ ∧
+    Gen.ErrorSrc.hashes.lookup "Error::service" = some 718359896676361145 /- "{Error::service_inner(cause.into(),false,crate::encode(&error_type),error_type.safe_args(),)}" -/ := by
   decide +kernel
 
 /-! #### the property -/
